@@ -127,7 +127,25 @@ impl Monitor for Mon {
                 };
                 if let Some(exp) = exp {
                     if exp.is_neg() {
-                        out.count("open_notional_reference_negative_unjudged");
+                        // the part traded away was paid more than the whole position cost: what is left has a negative cost basis, which
+                        // an unsigned open notional cannot hold (storing its magnitude would shift the position's lifetime PnL by twice
+                        // that amount): the order cannot go through
+                        return Some(
+                            Violation::new(
+                                "open_notional_bookkeeping",
+                                format!(
+                                    "{:?} succeeded although cost basis {} - quote exchanged {} {} realised pnl = {} < 0; the stored open notional is {}",
+                                    s.effect,
+                                    pr.notional,
+                                    q,
+                                    if pr.long { "+" } else { "-" },
+                                    exp,
+                                    p1.notional
+                                ),
+                            )
+                            .with("effect", format!("{:?}", s.effect))
+                            .with("negative_basis", true),
+                        );
                     } else {
                         out.count("open_notional_checks");
                         if S::pos(p1.notional.u128()) != exp {
